@@ -1,12 +1,13 @@
 #!/usr/bin/env python3
-"""Applies each seeded change in /verif/seeded/<dir> to /repo, runs the matching quick check (or the
-checks listed in meta.json 'checks'), records whether it raised a VIOLATION, and reverts /repo.
+"""Tries each seeded change in /verif/seeded/<dir>: a scratch worktree of /repo's HEAD gets the patch, the matching
+quick check (or the checks listed in meta.json 'checks') runs against that worktree (VERIF_REPO, see check.py: own
+harness target directory, own output and evidence directories), and whether it raised a VIOLATION is recorded.
+/repo itself is not touched, so registered checks can run at the same time. The worktree and the build output are removed.
 usage: tools/run_seeds.py [ids...]      results -> seeded/<dir>/detect.json"""
-import json, os, subprocess, sys, time
+import json, os, subprocess, sys, time, shutil
 ROOT = "/verif"
 def sh(cmd, **kw):
     return subprocess.run(cmd, shell=True, text=True, stdout=subprocess.PIPE, stderr=subprocess.STDOUT, **kw)
-assert sh("git -C /repo status --porcelain --untracked-files=no").stdout.strip() == "", "/repo has uncommitted changes"
 ids = sys.argv[1:] or sorted(os.listdir(f"{ROOT}/seeded"))
 for d in ids:
     sd = f"{ROOT}/seeded/{d}"
@@ -17,14 +18,20 @@ for d in ids:
     mp = f"{sd}/meta.json"
     if os.path.exists(mp):
         checks = json.load(open(mp)).get("checks", checks)
-    r = sh(f"git -C /repo apply {sd}/patch.diff")
+    wt = f"/tmp/seedrun{d}"
+    sh(f"git -C /repo worktree remove --force {wt}; rm -rf {wt}; git -C /repo worktree prune")
+    r = sh(f"git -C /repo worktree add -q --detach {wt} HEAD")
     if r.returncode != 0:
-        print(d, "PATCH DOES NOT APPLY", r.stdout[:300]); continue
+        print(d, "WORKTREE FAILED", r.stdout[:300]); continue
+    tag = "-" + os.path.basename(wt)
     out = {}
     try:
+        r = sh(f"git -C {wt} apply {sd}/patch.diff")
+        if r.returncode != 0:
+            print(d, "PATCH DOES NOT APPLY", r.stdout[:300]); continue
         for c in checks:
             t = time.time()
-            r = sh(f"cd {ROOT} && ./check.py {c} quick")
+            r = sh(f"cd {ROOT} && VERIF_REPO={wt} ./check.py {c} quick")
             nviol = r.stdout.count("VIOLATION property=")
             first = next((l for l in r.stdout.splitlines() if l.startswith("VIOLATION")), "")
             detail = ""
@@ -32,8 +39,13 @@ for d in ids:
             for i, l in enumerate(ls):
                 if l.startswith("VIOLATION") and i + 1 < len(ls):
                     detail = ls[i + 1].strip()[:400]; break
+            if r.returncode == 2:
+                detail = "TOOL ERROR " + r.stdout[-400:]
             out[c] = {"exit": r.returncode, "violation_lines": nviol, "first": first, "detail": detail, "wall_s": round(time.time() - t, 1)}
             print(d, c, "exit", r.returncode, "violations", nviol, detail[:200], flush=True)
     finally:
-        sh("git -C /repo checkout -- .")
-    json.dump({"head": sh("git -C /repo rev-parse --short HEAD").stdout.strip(), "verif": sh("git -C /verif rev-parse --short HEAD").stdout.strip(), "results": out}, open(f"{sd}/detect.json", "w"), indent=1)
+        sh(f"git -C /repo worktree remove --force {wt}; rm -rf {wt}")
+        shutil.rmtree(f"{ROOT}/harness/target{tag}", ignore_errors=True)
+        shutil.rmtree(f"{ROOT}/out{tag}", ignore_errors=True)
+    if out:
+        json.dump({"head": sh("git -C /repo rev-parse --short HEAD").stdout.strip(), "verif": sh("git -C /verif rev-parse --short HEAD").stdout.strip(), "results": out}, open(f"{sd}/detect.json", "w"), indent=1)
